@@ -29,7 +29,7 @@ func init() {
 			}
 			return 4
 		},
-		Cases:       func(r *obs.Run) int { return r.Share(r.Pick(40000, 320000)) },
+		Cases:       func(r *obs.Run) int { return r.Share(r.Pick(40000, 6000000)) },
 		Case:        c06Case,
 		MinDistinct: func(t string) int { return 5000 },
 		Floors: func(string) map[string]int64 {
